@@ -92,11 +92,15 @@ type FaultPlan struct {
 	Panic    bool // panic instead of returning an error
 	Calls    []string
 	Disabled bool
+	InHook   int // > 0 while a hook message that reaches the opchild keeper is executing
 }
 
 func (f *FaultPlan) hit(name string) error {
 	if f == nil || f.Disabled {
 		return nil
+	}
+	if f.InHook > 0 {
+		name = "hook:" + name
 	}
 	f.Count++
 	f.Calls = append(f.Calls, name)
@@ -164,6 +168,20 @@ func (m faultBankMsgServer) Send(ctx context.Context, msg *banktypes.MsgSend) (*
 		return nil, err
 	}
 	return m.MsgServer.Send(ctx, msg)
+}
+
+// faultOpchildMsgServer marks the keeper calls made by a hook's MsgInitiateTokenWithdrawal
+// (they reach the same wrapped bank keeper as the handler's own reclaim / burn, but run inside
+// handleBridgeHook's cache + recover)
+type faultOpchildMsgServer struct {
+	opchildtypes.MsgServer
+	f *FaultPlan
+}
+
+func (m faultOpchildMsgServer) InitiateTokenWithdrawal(ctx context.Context, msg *opchildtypes.MsgInitiateTokenWithdrawal) (*opchildtypes.MsgInitiateTokenWithdrawalResponse, error) {
+	m.f.InHook++
+	defer func() { m.f.InHook-- }()
+	return m.MsgServer.InitiateTokenWithdrawal(ctx, msg)
 }
 
 // faultAcct wraps the account keeper handed to the opchild keeper (zero-amount deposit path).
@@ -306,7 +324,12 @@ func NewL2Env(seed uint64, nUsers int, withFaults bool) *L2Env {
 		ctx.Logger())
 	env.K = k
 	env.Msg = opchildkeeper.NewMsgServerImpl(k)
-	opchildtypes.RegisterMsgServer(router, env.Msg)
+	if withFaults {
+		// router = messages executed by hooks (the harness calls env.Msg directly)
+		opchildtypes.RegisterMsgServer(router, faultOpchildMsgServer{env.Msg, env.Fault})
+	} else {
+		opchildtypes.RegisterMsgServer(router, env.Msg)
+	}
 
 	// users, sorted by address bytes
 	for i := 0; i < nUsers; i++ {
